@@ -7,7 +7,8 @@ from framework import PropertyCheck, Scenario
 class Check(PropertyCheck):
     ID = "C19"
     LEAN_MODULE = "JobShopProofs.Properties.C19All"
-    THEOREMS = ["JS.C19_shape", "JS.C19_support", "JS.C19_names_and_length", "JS.C19_names_across_passes", "JS.C19_deterministic", "JS.C19_refusal_state", "JS.C19_refusal_deterministic", "JS.C19_refusal_iter", "JS.iterate_refusal_state"]
+    THEOREMS = ["JS.C19_shape", "JS.C19_support", "JS.C19_names_and_length", "JS.C19_names_across_passes", "JS.C19_deterministic", "JS.C19_refusal_state", "JS.C19_refusal_deterministic", "JS.C19_refusal_iter", "JS.iterate_refusal_state",
+                "JS.C19_passes_concat", "JS.C19_next_is_pass_of_one", "JS.C19_generate_then_two_passes"]
     RULE = ("random generator parameters (job/machine/duration ranges as ints or pairs, allow_less_jobs_than_machines, "
             "allow_recirculation, machines_per_operation as int or range, iteration limit) x random draw stream: the "
             "generator's own random.Random is replaced by a scripted stream shared with the Lean model and the generated "
